@@ -41,12 +41,20 @@ C08Cases ==
       grid == {<<p, f, cu, r, t, s>> \in Pres \X {<<>>, <<1>>, U64} \X Currencies \X Receipts \X Toks \X (1..4) :
                  (cu = 978 /\ r = 231 /\ t = <<97>>) \/ (p = <<2, 5, 0, 0>> /\ f = <<1>>)} IN
   SetSeq({x \in full \cup grid : x[2] \in FinalsFor(x[1]) \/ x \in grid})
+\* the reservation's reply shapes rotate over the grid: one status with the receipt; an earlier / a later status without it;
+\* two statuses with different receipt numbers (the last one is the reservation's)
+ResShape(x) ==
+  LET k == (x[4] + x[6] + Len(x[1]) + Len(x[2])) % 4 IN
+  CASE k = 0 -> [o |-> "ok", receipt |-> x[4]]
+    [] k = 1 -> [o |-> "ok", receipt |-> x[4], early_status |-> TRUE]
+    [] k = 2 -> [o |-> "ok", receipt |-> x[4], late_status |-> TRUE]
+    [] OTHER -> [o |-> "ok", receipt |-> x[4], two_receipts |-> TRUE]
 C08Scenario(x) ==
   LET st == SetSeq(Statuses)[x[6]] IN
   [config |-> [BaseCfg EXCEPT !.pre = x[1], !.currency = x[3]],
    term |-> [next_receipt |-> x[4]],
    calls |-> << [op |-> "begin", token |-> x[5], amount |-> <<>>], [op |-> "commit", token |-> x[5], amount |-> x[2]] >>,
-   plan |-> [exchanges |-> << [o |-> "ok", receipt |-> x[4]], [o |-> "ok", status |-> st] >>]]
+   plan |-> [exchanges |-> << ResShape(x), [o |-> "ok", status |-> st] >>]]
 
 (* ------------------------------------------------------------------ C18 *)
 UidLens == 0..20
